@@ -30,3 +30,13 @@ ENGINES += [
 check("C06", "model_checking", "explicit-state breadth-first search over cache-operation histories of the real kvcache.Causal with a dictionary reference model",
       "For every configuration of a grid (sequences, capacity, batch, cache/mask padding, window, permuted V, shift fn, graph-node limit) every history of Forward / CopyPrefix / Resume(CanResume+truncate) / middle-range Remove up to the stated depth is executed on the real Causal cache (states cloned in-package, deduplicated on a canonical fingerprint of all cells, ranges and stored data). After every Forward the (key,value,mask) the cache returns is decoded per batch token and layer and compared with the reference history set exactly (nothing missing, nothing extra, right position after shifts, padding masked); cache-full errors only when the reference says so.",
       "Go toolchain; fakeml backend semantics (views alias, copies run in forward order); driver follows the documented Cache contract; small scope: <=3 sequences, capacity <=6, depth as in evidence.", "DESIGN.md 3/C06", "fakeml")
+
+check("C07", "model_checking", "exhaustive enumeration of request/batch/cancel event histories on the real ollamarunner.Server under the controlled runtime, with in-model visibility monitor and fresh-runner differential",
+      "The real completion handler, processBatch, InputCache and kvcache run on the fakeml backend under mcrt (handlers are managed threads; events submit / one batch / cancel are free choices explored depth-first, ready select cases included). A scripted model decodes, at Compute time, exactly which (token,position) entries the cache exposes for every batch token and compares them with the slot's recorded inputs (M1); slot exclusivity and in-use bookkeeping are checked after every event (M2); each finished request's text must equal what a fresh single-slot runner generates for it (M3); all slots and permits are free at the end (M4).",
+      "Go toolchain; instrumenter + mcrt shims; fakeml semantics; events at submit/batch/cancel granularity (the server mutex serialises them); runner/llamarunner (cgo) out of scope; bounds as in evidence.", "DESIGN.md 3/C07", "mcrt")
+check("C14", "exploration", "exhaustive enumeration of generated piece sequences x stop sets x limits through the real completion handler/processBatch with a string reference",
+      "Every sequence of token pieces up to the stated length (ASCII, multi-character pieces, multi-byte characters split across tokens, an invalid byte), every stop set (all singles, ordered pairs) and prediction limit is generated by a scripted model through the real runner; the streamed pieces, their concatenation and the finish reason are compared with a string-level reference (prefix, ends before a stop and contains none, nothing lost otherwise, whole UTF-8 pieces, reason). runner/common's helpers are also enumerated directly.",
+      "Go toolchain; instrumenter + mcrt shims; fakeml; generated text with invalid bytes inside is only checked for whole-UTF-8 pieces/finish reason; llamarunner's cgo loop out of scope.", "DESIGN.md 3/C14", "mcrt")
+for e in ENGINES:
+    if e["name"] in ("mcrt", "instrument"):
+        e["serves_properties"] = sorted(set(e["serves_properties"] + ["C07", "C14"]))
